@@ -51,7 +51,8 @@ TOL_EQ = 1e-13           # "to rounding" (relative, max norm)
 POS_REG = [1, 2, 4, 5, 6]    # regular orders with positive weights
 ALL_REG = [1, 2, 3, 4, 5, 6, 7]
 SING_A = [3, 4, 5, 6]        # singular orders exact for P1 x P1 products
-# (d) calibration (relative asymmetry, max norm), see stats sym_*:
+# (d) calibration (relative asymmetry, max norm; bounds at SYM_ORDERS[0] / SYM_ORDERS[1]).  Observed maxima over quick
+# seeds 0-3 + two thorough runs: sl 9.4e-3 / 1.5e-5, dl 2.3e-2 / 1.7e-4, hyp 4.2e-3 / 7.5e-6, ratio hi/lo <= 0.033
 SYM_ORDERS = (3, 6)
 SYM_BOUND = {"sl": (1e-1, 5e-4), "hyp": (1e-1, 5e-4), "dl": (2e-1, 5e-3)}
 SYM_SHRINK = 0.5
